@@ -5,8 +5,10 @@
 //   - areSiblings and the range comparisons of s2/cellunion.go                  -> CellUnionFns.lean
 //   - the error constants / test order of s2/predicates.go, r3.MaxPrec          -> PredConsts.lean
 //   - the codec limits, zig-zag, interleave tables, siTitoPiQi                  -> CodecConsts.lean
+//   - (face,i,j) <-> position, cross-face wrap, neighbours, CellIDFromToken      -> CellIDNbrFns.lean (nbr.go)
+//   - ToToken, CellID.String, CellIDFromString                                   -> CellIDStrFns.lean (str.go)
 //
-// into <out>.  lean/S2Proofs/Ties/{C01,C11,C02,C09}.lean prove `hand-written model = generated definition`.
+// into <out>.  lean/S2Proofs/Ties/{C01,C01_Neighbors,C01_Strings,C11,C02,C09}.lean prove `hand-written model = generated definition`.
 //
 // Translation rules (uniform, not per function):
 //
@@ -30,8 +32,17 @@
 // Functions outside this subset (return inside a loop, slices grown by append: lowerBound, CellUnionFromIntersection,
 // CellID.String) are translated "by conditions": every if/for condition and loop initialiser, in source order, becomes
 // a definition `<F>_cond<k>` / `<F>_init<k>` over its free variables, and the tie file states the hand model's step
-// equation in terms of them.  EdgeNeighbors / VertexNeighbors / AllNeighbors (float re-projection, negative ints,
-// append in a loop with a trailing test) are NOT translated.
+// equation in terms of them.
+//
+// nbr.go (-> CellIDNbrFns.lean, ties in lean/S2Proofs/Ties/C01_Neighbors.lean) translates cellIDFromFaceIJ,
+// faceIJOrientation, clampInt, cellIDFromFaceIJWrap, cellIDFromFaceIJSame, EdgeNeighbors, VertexNeighbors,
+// AllNeighbors and CellIDFromToken in full, with the additional rules documented there (count-down loops as folds,
+// named results, tuple assignment, composite literals / append, Go int as Int, float64 as the soft-float S2.F64,
+// the stuv.go functions and strconv.ParseUint referred to by name).
+//
+// str.go (-> CellIDStrFns.lean, ties in lean/S2Proofs/Ties/C01_Strings.lean) translates ToToken, CellID.String and
+// CellIDFromString in full (byte = UInt8, bytes.Buffer = List UInt8, string indexing, `return` inside a loop as an
+// Except-valued loop function; fmt.Sprintf("%016x"), strings.TrimRight, strconv.FormatInt referred to by name).
 //
 // Anything else inside a function it is asked to translate is a fatal error (exit 1 with file:line).
 // Output is a pure function of the source tree (fixed orders, no maps iterated).
@@ -193,10 +204,20 @@ const (
 	kBool
 	kU32
 	kBig // *big.Float at MaxPrec: exact, modelled as Int (scaled integers, see S2/Exact.lean)
+	kF64 // float64: the bit-exact soft-float S2.F64 (only in the functions of nbr.go)
+	kStr // string (only CellIDFromToken, nbr.go): Lean String, len(s) = number of characters (= bytes for ASCII)
+	kU8  // byte (only in the string functions of str.go): UInt8, wrap-around + -
+	kBuf // bytes.Buffer (only CellID.String, str.go): the list of bytes written so far, List UInt8
 )
 
 // intAsInt: translate Go int as Int (functions whose ints may be negative), set per function
 var intAsInt bool
+
+// strOK: string parameters are translated (nbr.go: CellIDFromToken)
+var strOK bool
+
+// floatOK: float64 is translated (soft-float S2.F64); set per function (nbr.go)
+var floatOK bool
 
 func isBigFloatPtr(t types.Type) bool {
 	p, ok := t.(*types.Pointer)
@@ -243,7 +264,22 @@ func kindOfType(t types.Type) kind {
 			return kInt
 		case types.Bool, types.UntypedBool:
 			return kBool
+		case types.Float64, types.UntypedFloat:
+			if floatOK {
+				return kF64
+			}
+		case types.String, types.UntypedString:
+			if strOK {
+				return kStr
+			}
+		case types.Uint8, types.UntypedRune:
+			if strOK {
+				return kU8
+			}
 		}
+	}
+	if strOK && isBytesBuffer(t) {
+		return kBuf
 	}
 	return kOther
 }
@@ -260,6 +296,14 @@ func leanKind(k kind) string {
 		return "Int"
 	case kBool:
 		return "Bool"
+	case kF64:
+		return "_root_.S2.F64"
+	case kStr:
+		return "String"
+	case kU8:
+		return "UInt8"
+	case kBuf:
+		return "List UInt8"
 	}
 	return ""
 }
@@ -337,6 +381,9 @@ func (u *unit) leanType(p token.Pos, t types.Type) string {
 	if isPreciseVector(t) {
 		return "_root_.S2.Exact.IV3"
 	}
+	if floatOK && isR3Vector(t) {
+		return "_root_.S2.V3"
+	}
 	fatal(p, "unsupported type %s", t.String())
 	return ""
 }
@@ -352,6 +399,10 @@ func lit(p token.Pos, v constant.Value, k kind, hex bool) string {
 			return "true"
 		}
 		return "false"
+	case kF64:
+		return fmt.Sprintf("(⟨0x%016X⟩ : _root_.S2.F64)", f64bits(p, v))
+	case kStr:
+		return leanStringLit(p, v)
 	}
 	iv := constant.ToInt(v)
 	if iv.Kind() != constant.Int {
@@ -383,6 +434,11 @@ func lit(p token.Pos, v constant.Value, k kind, hex bool) string {
 		return txt
 	case kInt:
 		return "(" + txt + " : Int)"
+	case kU8:
+		if bi.Sign() < 0 || bi.BitLen() > 8 {
+			fatal(p, "constant %s out of byte range", txt)
+		}
+		return "(" + txt + " : UInt8)"
 	}
 	fatal(p, "constant %s of unsupported type", txt)
 	return ""
@@ -412,12 +468,16 @@ type env struct {
 	arrRows map[types.Object]bool  // locals holding a table row (Lean Array Nat)
 	loop    *loopCtx
 	nloops  int
+	nfolds  int      // count-down loops translated as folds (need no fuel)
 	fuel    []string // fuel expression per loop (in source order)
 	stateFn bool     // state-passing function (writes the global tables)
 	selfKey string
+	named   []types.Object // named results (zero-initialised locals; a bare `return` yields their tuple)
+	retType string         // Lean result type (single result), for Except-valued loops
 }
 
 type loopCtx struct {
+	exc     bool // the body contains a `return`: the loop function is Except-valued (.error = returned value)
 	carried []types.Object
 	call    string // "Name_loopK captured…"
 	post    ast.Stmt
@@ -459,7 +519,7 @@ var cmpSym = map[token.Token]string{token.LSS: "<", token.LEQ: "≤", token.GTR:
 
 func (e *env) cmp(b *ast.BinaryExpr) string {
 	kx, ky := e.u.kindOf(b.X), e.u.kindOf(b.Y)
-	if kx != ky || (kx != kU64 && kx != kNat && kx != kInt && kx != kU32) {
+	if kx != ky || (kx != kU64 && kx != kNat && kx != kInt && kx != kU32 && kx != kU8) {
 		fatal(b.Pos(), "comparison of unsupported operand types in %s", src(b))
 	}
 	return fmt.Sprintf("%s %s %s", e.expr(b.X), cmpSym[b.Op], e.expr(b.Y))
@@ -516,6 +576,11 @@ func (e *env) binop(p token.Pos, op token.Token, X, Y ast.Expr, k kind, whole as
 				return fmt.Sprintf("(shl64 %s %s)", x, cnt)
 			}
 			return fmt.Sprintf("(shr64 %s %s)", x, cnt)
+		case kInt:
+			// Go int (64-bit two's complement) modelled as Int: `x << c` is x * 2^c (no overflow: see nbr.go)
+			if op == token.SHL && intAsInt {
+				return fmt.Sprintf("(ishl %s %s)", e.atom(X), cnt)
+			}
 		case kU32:
 			if c != nil && c.Cmp(big.NewInt(32)) < 0 {
 				if op == token.SHL {
@@ -541,12 +606,25 @@ func (e *env) binop(p token.Pos, op token.Token, X, Y ast.Expr, k kind, whole as
 	case token.NEQ:
 		return fmt.Sprintf("(%s != %s)", x, y)
 	case token.LSS, token.LEQ, token.GTR, token.GEQ:
-		if kx != kU64 && kx != kNat && kx != kInt && kx != kU32 {
+		if kx != kU64 && kx != kNat && kx != kInt && kx != kU32 && kx != kU8 {
 			fatal(p, "comparison of unsupported operand types in %s", src(whole))
 		}
 		return fmt.Sprintf("decide (%s %s %s)", x, cmpSym[op], y)
 	}
-	if k != kU64 && k != kNat && k != kInt && k != kU32 {
+	if k == kF64 {
+		// IEEE binary64 operations of the soft-float model (round to nearest even, bit-exact)
+		if sym, ok := map[token.Token]string{token.ADD: "+", token.SUB: "-", token.MUL: "*", token.QUO: "/"}[op]; ok {
+			return fmt.Sprintf("(%s %s %s)", x, sym, y)
+		}
+		fatal(p, "unsupported float operator %s in %s", op, src(whole))
+	}
+	if k == kStr && op == token.ADD {
+		return fmt.Sprintf("(%s ++ %s)", x, y) // string concatenation
+	}
+	if k == kU8 && op != token.ADD && op != token.SUB {
+		fatal(p, "unsupported byte operator %s in %s", op, src(whole))
+	}
+	if k != kU64 && k != kNat && k != kInt && k != kU32 && k != kU8 {
 		fatal(p, "arithmetic on unsupported type in %s", src(whole))
 	}
 	if k == kNat && op == token.SUB {
@@ -571,6 +649,9 @@ func (e *env) binop(p token.Pos, op token.Token, X, Y ast.Expr, k kind, whole as
 	case token.AND:
 		if k != kInt {
 			return fmt.Sprintf("(%s &&& %s)", x, y)
+		}
+		if intAsInt {
+			return fmt.Sprintf("(iand %s %s)", e.atom(X), e.atom(Y))
 		}
 	case token.OR:
 		if k != kInt {
@@ -614,6 +695,14 @@ func (e *env) conv(c *ast.CallExpr) string {
 		return fmt.Sprintf("(int64OfWord %s)", x)
 	case to == kInt && from == kNat:
 		return fmt.Sprintf("(Int.ofNat %s)", x)
+	case to == kInt && from == kU8:
+		return fmt.Sprintf("(Int.ofNat (%s).toNat)", x)
+	case to == kNat && from == kU8:
+		return fmt.Sprintf("(%s).toNat", x)
+	case to == kF64 && from == kInt:
+		return fmt.Sprintf("(_root_.S2.F64.ofInt %s)", x)
+	case to == kF64 && from == kNat:
+		return fmt.Sprintf("(_root_.S2.F64.ofNat %s)", x)
 	}
 	fatal(c.Pos(), "unsupported conversion %s", src(c))
 	return ""
@@ -637,20 +726,61 @@ var externs = map[string]string{
 	"sort.Search":               "sortSearch",
 }
 
+// call translates a call used as a single value.  A Nat-modelled int result of a callee is cast to Int
+// when the calling function models its ints as Int (see callFull).
 func (e *env) call(c *ast.CallExpr) string {
+	s, natRes := e.callFull(c)
+	switch {
+	case len(natRes) == 1 && natRes[0]:
+		return "(Int.ofNat " + s + ")"
+	case len(natRes) > 1:
+		for _, b := range natRes {
+			if b {
+				fatal(c.Pos(), "tuple-valued call with Nat-modelled int results used as a single value: %s", src(c))
+			}
+		}
+	}
+	return s
+}
+
+// isGoInt reports whether t is Go's `int`.
+func isGoInt(t types.Type) bool {
+	b, ok := t.Underlying().(*types.Basic)
+	return ok && b.Kind() == types.Int
+}
+
+// fnIntMode: Go key of a translated function -> its ints are modelled as Int (otherwise Nat)
+var fnIntMode = map[string]bool{}
+
+// callFull translates a call and reports, per result, whether the callee models that Go int result as Nat
+// while the caller models ints as Int (the caller then casts with Int.ofNat).  Symmetrically an Int argument
+// passed to a Nat-modelled int parameter is cast with Int.toNat — exact when the argument is non-negative,
+// which is the callee's contract (faces, levels, in-range i/j); the hand models make the same cast.
+func (e *env) callFull(c *ast.CallExpr) (string, []bool) {
 	info := e.u.pi.info
 	if tv, ok := info.Types[c.Fun]; ok && tv.IsType() {
 		if len(c.Args) != 1 {
 			fatal(c.Pos(), "conversion with %d arguments", len(c.Args))
 		}
-		return e.conv(c)
+		return e.conv(c), nil
 	}
 	var key string
 	var args []string
+	var fobj *types.Func
 	switch f := unparen(c.Fun).(type) {
 	case *ast.Ident:
 		if b, ok := info.Uses[f].(*types.Builtin); ok && b.Name() == "len" && len(c.Args) == 1 && sliceOfU64(e.u.typeOf(c.Args[0])) {
-			return "(" + e.atom(c.Args[0]) + ").size"
+			return "(" + e.atom(c.Args[0]) + ").size", nil
+		}
+		if b, ok := info.Uses[f].(*types.Builtin); ok && b.Name() == "len" && len(c.Args) == 1 && e.u.kindOf(c.Args[0]) == kStr {
+			if intAsInt {
+				return "(Int.ofNat (" + e.atom(c.Args[0]) + ").toList.length)", nil
+			}
+			return "(" + e.atom(c.Args[0]) + ").toList.length", nil
+		}
+		if b, ok := info.Uses[f].(*types.Builtin); ok && b.Name() == "append" && len(c.Args) == 2 && !c.Ellipsis.IsValid() && sliceOfU64(e.u.typeOf(c.Args[0])) {
+			// append(s, x) on a []CellID value that is only ever rebound (`s = append(s, x)`): Array.push
+			return "(" + e.atom(c.Args[0]) + ".push " + e.atom(c.Args[1]) + ")", nil
 		}
 		fn, ok := info.Uses[f].(*types.Func)
 		if !ok || fn.Pkg() != e.u.pi.pkg {
@@ -660,13 +790,20 @@ func (e *env) call(c *ast.CallExpr) string {
 			fatal(c.Pos(), "newBigFloat() used as a value")
 		}
 		key = fn.Name()
+		fobj = fn
+		if ex, ok := pkgExterns[key]; ok && floatOK && intAsInt {
+			return e.externCall(c, fn, ex)
+		}
 	case *ast.SelectorExpr:
 		if sel, ok := info.Selections[f]; ok {
 			if sel.Kind() != types.MethodVal {
 				fatal(c.Pos(), "unsupported selector call %s", src(c))
 			}
 			if isBigFloatPtr(sel.Recv()) {
-				return e.bigCall(c, f)
+				return e.bigCall(c, f), nil
+			}
+			if strOK && isBytesBuffer(sel.Recv()) {
+				return e.bufCall(c, f), nil
 			}
 			rt := sel.Recv()
 			if p, ok := rt.(*types.Pointer); ok {
@@ -678,8 +815,19 @@ func (e *env) call(c *ast.CallExpr) string {
 			}
 			key = nt.Obj().Name() + "." + sel.Obj().Name()
 			args = append(args, e.atom(f.X))
+			fobj, _ = sel.Obj().(*types.Func)
 		} else if fn, ok := info.Uses[f.Sel].(*types.Func); ok && fn.Pkg() != nil {
 			q := fn.Pkg().Path() + "." + fn.Name()
+			if floatOK {
+				if s, ok := e.mathCall(c, q); ok {
+					return s, nil
+				}
+			}
+			if strOK {
+				if s, ok := e.strLibCall(c, q); ok {
+					return s, nil
+				}
+			}
 			ln, ok := externs[q]
 			if !ok {
 				fatal(c.Pos(), "call of unsupported external function %s", q)
@@ -687,7 +835,7 @@ func (e *env) call(c *ast.CallExpr) string {
 			for _, a := range c.Args {
 				args = append(args, e.atom(a))
 			}
-			return "(" + ln + " " + strings.Join(args, " ") + ")"
+			return "(" + ln + " " + strings.Join(args, " ") + ")", nil
 		} else {
 			fatal(c.Pos(), "unsupported call %s", src(c))
 		}
@@ -701,10 +849,29 @@ func (e *env) call(c *ast.CallExpr) string {
 	if e.u.state[key] {
 		fatal(c.Pos(), "state-passing function %s called inside an expression", key)
 	}
-	for _, a := range c.Args {
-		args = append(args, e.atom(a))
+	calleeInt := fnIntMode[key]
+	if calleeInt && !intAsInt {
+		fatal(c.Pos(), "call of %s (ints modelled as Int) from a function whose ints are modelled as Nat", key)
 	}
-	return "(" + ln + " " + strings.Join(args, " ") + ")"
+	cast := intAsInt && !calleeInt && fobj != nil
+	var sig *types.Signature
+	if cast {
+		sig = fobj.Type().(*types.Signature)
+	}
+	for i, a := range c.Args {
+		s := e.atom(a)
+		if cast && i < sig.Params().Len() && isGoInt(sig.Params().At(i).Type()) {
+			s = "(Int.toNat " + s + ")"
+		}
+		args = append(args, s)
+	}
+	var natRes []bool
+	if cast {
+		for i := 0; i < sig.Results().Len(); i++ {
+			natRes = append(natRes, isGoInt(sig.Results().At(i).Type()))
+		}
+	}
+	return "(" + ln + " " + strings.Join(args, " ") + ")", natRes
 }
 
 // bigCall: the *big.Float operations of the exact predicates.  `newBigFloat().Op(x, y)` is exact at MaxPrec
@@ -793,6 +960,26 @@ func (e *env) expr(x ast.Expr) string {
 			return leanLocal(v.Name)
 		}
 		fatal(x.Pos(), "unsupported identifier %s", v.Name)
+	case *ast.CompositeLit:
+		// [n]CellID{…} -> the tuple (as for `var a [n]T`), []CellID{…} -> #[…]
+		var parts []string
+		for _, el := range v.Elts {
+			if _, ok := el.(*ast.KeyValueExpr); ok {
+				fatal(el.Pos(), "keyed element in composite literal")
+			}
+			parts = append(parts, e.expr(el))
+		}
+		switch tt := u.typeOf(x).Underlying().(type) {
+		case *types.Array:
+			if kindOfType(tt.Elem()) == kU64 && int64(len(parts)) == tt.Len() && len(parts) >= 2 {
+				return "(" + strings.Join(parts, ", ") + ")"
+			}
+		case *types.Slice:
+			if kindOfType(tt.Elem()) == kU64 {
+				return "(#[" + strings.Join(parts, ", ") + "] : Array UInt64)"
+			}
+		}
+		fatal(x.Pos(), "unsupported composite literal %s", oneLine(x))
 	case *ast.UnaryExpr:
 		k := u.kindOf(x)
 		switch v.Op {
@@ -800,8 +987,8 @@ func (e *env) expr(x ast.Expr) string {
 			switch k {
 			case kU64:
 				return fmt.Sprintf("((0 : UInt64) - %s)", e.expr(v.X))
-			case kInt:
-				return fmt.Sprintf("(- %s)", e.expr(v.X))
+			case kInt, kF64:
+				return fmt.Sprintf("(- %s)", e.atom(v.X))
 			}
 			fatal(x.Pos(), "unary minus on Go int (Nat model) in %s", src(x))
 		case token.XOR:
@@ -863,9 +1050,15 @@ func (e *env) expr(x ast.Expr) string {
 				return fmt.Sprintf("%s_%d", leanLocal(id.Name), i)
 			}
 		}
+		if s, ok := e.strIndex(v); ok {
+			return s
+		}
 		// call returning an array: projection of the tuple
 		if c, ok := unparen(v.X).(*ast.CallExpr); ok {
 			at, ok := u.typeOf(c).Underlying().(*types.Array)
+			if ok && iv == nil && strOK {
+				return e.varIndex4(v, c, at)
+			}
 			if !ok || iv == nil {
 				fatal(x.Pos(), "unsupported index expression %s", src(x))
 			}
@@ -960,6 +1153,10 @@ func (e *env) assigned(n ast.Node, lo, hi token.Pos) []types.Object {
 			}
 		case *ast.IncDecStmt:
 			add(s.X)
+		case *ast.ExprStmt:
+			if id := e.bufWriteTarget(s.X); id != nil {
+				add(id)
+			}
 		}
 		return true
 	})
@@ -1011,7 +1208,11 @@ func (e *env) seq(list []ast.Stmt, ind string, fall fallFn, end token.Pos) strin
 	switch v := st.(type) {
 	case *ast.ReturnStmt:
 		if e.loop != nil {
-			fatal(st.Pos(), "return inside a loop is not supported")
+			// return inside a loop whose function is Except-valued (forStmt): `.error value`
+			if !e.loop.exc || len(v.Results) != 1 || len(rest) != 0 {
+				fatal(st.Pos(), "return inside a loop is not supported")
+			}
+			return ind + ".error " + e.atom(v.Results[0])
 		}
 		if len(rest) != 0 {
 			fatal(rest[0].Pos(), "statement after return")
@@ -1024,10 +1225,25 @@ func (e *env) seq(list []ast.Stmt, ind string, fall fallFn, end token.Pos) strin
 		}
 		switch len(v.Results) {
 		case 0:
-			fatal(st.Pos(), "bare return (named results) is not supported")
+			if len(e.named) < 2 {
+				fatal(st.Pos(), "bare return without (two or more) named results is not supported")
+			}
+			var parts []string
+			for _, o := range e.named {
+				parts = append(parts, leanLocal(o.Name()))
+			}
+			return ind + "(" + strings.Join(parts, ", ") + ")"
 		case 1:
 			r := unparen(v.Results[0])
 			if id, ok := r.(*ast.Ident); ok {
+				if _, isNil := e.obj(id).(*types.Nil); isNil {
+					// `return nil` from a function returning []CellID: the empty slice (callers observe len/range only)
+					res := u.pi.info.Defs[e.fd.Name].(*types.Func).Type().(*types.Signature).Results()
+					if res.Len() == 1 && sliceOfU64(res.At(0).Type()) {
+						return ind + "(#[] : Array UInt64)"
+					}
+					fatal(st.Pos(), "return nil of unsupported type")
+				}
 				if n, ok := e.arrays[e.obj(id)]; ok {
 					var parts []string
 					for i := int64(0); i < n; i++ {
@@ -1054,6 +1270,9 @@ func (e *env) seq(list []ast.Stmt, ind string, fall fallFn, end token.Pos) strin
 		switch v.Tok {
 		case token.BREAK:
 			val, _ := e.tupleOf(e.loop.carried)
+			if e.loop.exc {
+				return ind + ".ok " + val
+			}
 			return ind + val
 		case token.CONTINUE:
 			return e.loopNext(ind)
@@ -1092,6 +1311,12 @@ func (e *env) seq(list []ast.Stmt, ind string, fall fallFn, end token.Pos) strin
 					zero := "0"
 					if kindOfType(o.Type()) == kBool {
 						zero = "false"
+					} else if sliceOfU64(o.Type()) {
+						zero = "#[]"
+					} else if kindOfType(o.Type()) == kBuf {
+						zero = "[]" // var b bytes.Buffer: nothing written yet
+					} else if k := kindOfType(o.Type()); k != kU64 && k != kNat && k != kInt && k != kU32 {
+						fatal(st.Pos(), "zero value of unsupported type in %s", src(st))
 					}
 					out += fmt.Sprintf("%slet %s : %s := %s\n", ind, leanLocal(n.Name), ty, zero)
 				} else if len(vs.Values) == len(vs.Names) {
@@ -1121,6 +1346,9 @@ func (e *env) seq(list []ast.Stmt, ind string, fall fallFn, end token.Pos) strin
 		return fmt.Sprintf("%slet %s : %s := (%s %s %s)\n", ind, leanLocal(id.Name), e.localType(o), leanLocal(id.Name), op, one) + k(ind)
 
 	case *ast.AssignStmt:
+		if s, ok := e.parseUintMatch(v, rest, ind, fall, end); ok {
+			return s
+		}
 		return e.assign(v, ind) + k(ind)
 
 	case *ast.ExprStmt:
@@ -1128,13 +1356,19 @@ func (e *env) seq(list []ast.Stmt, ind string, fall fallFn, end token.Pos) strin
 		if !ok {
 			fatal(st.Pos(), "unsupported statement %s", src(st))
 		}
+		if s, ok := e.bufWrite(c, ind); ok {
+			return s + k(ind)
+		}
 		return e.stateCall(c, ind) + k(ind)
 
 	case *ast.IfStmt:
 		return e.ifStmt(v, ind, k, rest)
 
 	case *ast.ForStmt:
-		return e.forStmt(v, ind) + k(ind)
+		if hasReturn(v.Body) {
+			return e.forStmt(v, ind, k)
+		}
+		return e.forStmt(v, ind, nil) + k(ind)
 	}
 	fatal(st.Pos(), "unsupported statement %s", src(st))
 	return ""
@@ -1146,6 +1380,11 @@ var assignOps = map[token.Token]token.Token{token.ADD_ASSIGN: token.ADD, token.S
 
 func (e *env) assign(v *ast.AssignStmt, ind string) string {
 	u := e.u
+	if len(v.Lhs) > 1 && len(v.Rhs) == 1 && (v.Tok == token.DEFINE || v.Tok == token.ASSIGN) {
+		if c, ok := unparen(v.Rhs[0]).(*ast.CallExpr); ok {
+			return e.assignTuple(v, c, ind)
+		}
+	}
 	if len(v.Lhs) != 1 || len(v.Rhs) != 1 {
 		fatal(v.Pos(), "unsupported multiple assignment %s", src(v))
 	}
@@ -1215,6 +1454,55 @@ func (e *env) assign(v *ast.AssignStmt, ind string) string {
 	}
 	fatal(v.Pos(), "unsupported assignment %s", src(v))
 	return ""
+}
+
+// assignTuple: `a, b, _ := f(…)` / `a, b, c = f(…)` — the call's tuple is bound once, then each named target is
+// (re)bound to its projection (a Nat-modelled int result is cast to Int when the caller's ints are Int).
+func (e *env) assignTuple(v *ast.AssignStmt, c *ast.CallExpr, ind string) string {
+	tup, ok := e.u.typeOf(c).(*types.Tuple)
+	if !ok || tup.Len() != len(v.Lhs) {
+		fatal(v.Pos(), "unsupported multiple assignment %s", src(v))
+	}
+	call, natRes := e.callFull(c)
+	out := fmt.Sprintf("%slet r' : %s := %s\n", ind, e.calleeTupleType(c.Pos(), tup, natRes), call)
+	for i, l := range v.Lhs {
+		id, ok := unparen(l).(*ast.Ident)
+		if !ok {
+			fatal(l.Pos(), "unsupported assignment target %s", src(l))
+		}
+		if id.Name == "_" {
+			continue
+		}
+		o := e.obj(id)
+		if ov, ok := o.(*types.Var); ok && ov.Parent() == e.u.pi.pkg.Scope() {
+			fatal(v.Pos(), "assignment to package variable %s", id.Name)
+		}
+		if _, ok := e.arrays[o]; ok {
+			fatal(v.Pos(), "tuple assignment to a local array")
+		}
+		if v.Tok == token.DEFINE && e.u.pi.info.Defs[id] != nil {
+			e.checkShadow(id)
+		}
+		pr := tupleProj("r'", int64(i), int64(tup.Len()))
+		if i < len(natRes) && natRes[i] {
+			pr = "(Int.ofNat " + pr + ")"
+		}
+		out += fmt.Sprintf("%slet %s : %s := %s\n", ind, leanLocal(id.Name), e.localType(o), pr)
+	}
+	return out
+}
+
+// calleeTupleType: the Lean type of a callee's result tuple as the callee is modelled (Nat where natRes says so).
+func (e *env) calleeTupleType(p token.Pos, tup *types.Tuple, natRes []bool) string {
+	var parts []string
+	for i := 0; i < tup.Len(); i++ {
+		if i < len(natRes) && natRes[i] {
+			parts = append(parts, "Nat")
+		} else {
+			parts = append(parts, e.u.leanType(p, tup.At(i).Type()))
+		}
+	}
+	return strings.Join(parts, " × ")
 }
 
 // state = (lookupPos, lookupIJ)
@@ -1367,9 +1655,32 @@ func (e *env) loopNext(ind string) string {
 //	  | fuel+1, c => if cond then (body; post; F_loopK … fuel c') else c
 //
 // `break` yields the carried variables, `continue` / falling off the body runs post and recurses.
-func (e *env) forStmt(v *ast.ForStmt, ind string) string {
+//
+// A body that contains `return x` (only str.go: CellIDFromString) makes the loop function Except-valued:
+//
+//	def F_loopK (captured…) : Nat → Carried → Except R Carried      (R = the function's result type)
+//	  return x -> .error x;  break / loop exit / fuel 0 -> .ok carried
+//	… match F_loopK … fuel carried with | .error r' => r' | .ok c' => (rebind carried from c'; rest of the function)
+func hasReturn(n ast.Node) bool {
+	found := false
+	ast.Inspect(n, func(x ast.Node) bool {
+		switch x.(type) {
+		case *ast.ReturnStmt:
+			found = true
+		case *ast.FuncLit:
+			return false
+		}
+		return !found
+	})
+	return found
+}
+
+func (e *env) forStmt(v *ast.ForStmt, ind string, after fallFn) string {
 	if e.loop != nil {
 		fatal(v.Pos(), "nested loops are not supported")
+	}
+	if s, ok := e.countDownFold(v, ind); ok {
+		return s
 	}
 	if e.nloops >= len(e.fuel) {
 		fatal(v.Pos(), "loop without a fuel bound in the translator's table")
@@ -1459,24 +1770,184 @@ func (e *env) forStmt(v *ast.ForStmt, ind string) string {
 		pat = "(" + pat + ")"
 	}
 	call := strings.TrimSpace(e.u.ns + "." + name + " " + strings.Join(cargs, " "))
-	e.loop = &loopCtx{carried: carried, call: call, post: v.Post}
+	exc := after != nil
+	if exc && (!strOK || e.retType == "") {
+		fatal(v.Pos(), "return inside a loop is not supported")
+	}
+	okw := ""
+	if exc {
+		okw = ".ok "
+	}
+	e.loop = &loopCtx{carried: carried, call: call, post: v.Post, exc: exc}
 	next := func(ind string) string { return e.loopNext(ind) }
 	var bodyS string
 	if v.Cond != nil {
 		inner := e.seq(v.Body.List, "      ", next, v.Body.End())
-		bodyS = fmt.Sprintf("    if %s then\n%s\n    else\n      %s", e.cond(v.Cond), inner, val)
+		bodyS = fmt.Sprintf("    if %s then\n%s\n    else\n      %s%s", e.cond(v.Cond), inner, okw, val)
 	} else {
 		bodyS = e.seq(v.Body.List, "    ", next, v.Body.End())
 	}
 	e.loop = nil
 	var b strings.Builder
-	fmt.Fprintf(&b, "/-- loop %d of %s: `%s` — fuel-recursive; `break` returns the loop-carried variables. -/\n", e.nloops, e.name, loopHeader(v))
-	fmt.Fprintf(&b, "def %s %s : Nat → %s → %s\n", name, strings.Join(cparams, " "), paren(typ), paren(typ))
-	fmt.Fprintf(&b, "  | 0, %s => %s\n", pat, val)
+	if exc {
+		fmt.Fprintf(&b, "/-- loop %d of %s: `%s` — fuel-recursive; `return x` inside the loop is `.error x`, leaving the loop is `.ok` of the loop-carried variables. -/\n", e.nloops, e.name, loopHeader(v))
+		fmt.Fprintf(&b, "def %s %s : Nat → %s → Except %s %s\n", name, strings.Join(cparams, " "), paren(typ), paren(e.retType), paren(typ))
+	} else {
+		fmt.Fprintf(&b, "/-- loop %d of %s: `%s` — fuel-recursive; `break` returns the loop-carried variables. -/\n", e.nloops, e.name, loopHeader(v))
+		fmt.Fprintf(&b, "def %s %s : Nat → %s → %s\n", name, strings.Join(cparams, " "), paren(typ), paren(typ))
+	}
+	fmt.Fprintf(&b, "  | 0, %s => %s%s\n", pat, okw, val)
 	fmt.Fprintf(&b, "  | fuel+1, %s =>\n%s\n\n", pat, bodyS)
 	e.u.aux = append(e.u.aux, b.String())
+	if exc {
+		in := ind + "  "
+		out := fmt.Sprintf("%smatch %s (%s) %s with\n%s| .error r' => r'\n%s| .ok c' =>\n", ind, call, fuel, val, ind, ind)
+		for i, o := range carried {
+			pr := "c'"
+			if len(carried) > 1 {
+				pr = tupleProj("c'", int64(i), int64(len(carried)))
+			}
+			out += fmt.Sprintf("%slet %s : %s := %s\n", in, leanLocal(o.Name()), e.localType(o), pr)
+		}
+		return pre + out + after(in)
+	}
 	rhs := fmt.Sprintf("%s  %s (%s) %s", ind, call, fuel, val)
 	return pre + e.bindTuple(carried, rhs, ind)
+}
+
+// countDownFold: `for k := C; k >= 0; k-- { body }` with C a constant, a body without break / continue / return /
+// inner loop and without assignment to k runs the body for k = C, C-1, …, 0 in this order.  It becomes
+//
+//	def F_bodyN (captured…) (c' : Carried) (k : Nat) : Carried := body; (carried…)
+//	… [C, …, 1, 0].foldl (F_bodyN captured…) (carried…)
+//
+// (loop-carried variables in declaration order).  No fuel is involved.
+func (e *env) countDownFold(v *ast.ForStmt, ind string) (string, bool) {
+	info := e.u.pi.info
+	as, ok := v.Init.(*ast.AssignStmt)
+	if !ok || as.Tok != token.DEFINE || len(as.Lhs) != 1 || len(as.Rhs) != 1 {
+		return "", false
+	}
+	kid, ok := as.Lhs[0].(*ast.Ident)
+	if !ok {
+		return "", false
+	}
+	kobj := info.Defs[kid]
+	cv := e.u.constVal(as.Rhs[0])
+	if kobj == nil || cv == nil || !isGoInt(kobj.Type()) {
+		return "", false
+	}
+	top, exact := constant.Int64Val(constant.ToInt(cv))
+	if !exact || top < 0 || top > 64 {
+		return "", false
+	}
+	cond, ok := unparen(v.Cond).(*ast.BinaryExpr)
+	if !ok || cond.Op != token.GEQ {
+		return "", false
+	}
+	cx, ok := unparen(cond.X).(*ast.Ident)
+	zero := e.u.constVal(cond.Y)
+	if !ok || info.Uses[cx] != kobj || zero == nil || constant.Sign(constant.ToInt(zero)) != 0 {
+		return "", false
+	}
+	post, ok := v.Post.(*ast.IncDecStmt)
+	if !ok || post.Tok != token.DEC {
+		return "", false
+	}
+	px, ok := unparen(post.X).(*ast.Ident)
+	if !ok || info.Uses[px] != kobj {
+		return "", false
+	}
+	plain := true
+	ast.Inspect(v.Body, func(x ast.Node) bool {
+		switch x.(type) {
+		case *ast.BranchStmt, *ast.ReturnStmt, *ast.ForStmt, *ast.RangeStmt, *ast.FuncLit, *ast.GoStmt, *ast.DeferStmt, *ast.LabeledStmt:
+			plain = false
+		}
+		return plain
+	})
+	if !plain {
+		return "", false
+	}
+	lo, hi := v.Body.Pos(), v.Body.End()
+	carried := e.assigned(v.Body, lo, hi)
+	for _, o := range carried {
+		if o == kobj {
+			return "", false
+		}
+		if _, ok := e.arrays[o]; ok {
+			fatal(v.Pos(), "loop assigns a local array")
+		}
+	}
+	if len(carried) == 0 {
+		fatal(v.Pos(), "loop without loop-carried variables")
+	}
+	sort.SliceStable(carried, func(a, b int) bool { return carried[a].Pos() < carried[b].Pos() })
+	var captured []types.Object
+	seen := map[types.Object]bool{kobj: true}
+	for _, o := range carried {
+		seen[o] = true
+	}
+	ast.Inspect(v.Body, func(x ast.Node) bool {
+		id, ok := x.(*ast.Ident)
+		if !ok {
+			return true
+		}
+		o, ok := info.Uses[id].(*types.Var)
+		if !ok || o.IsField() || o.Parent() == e.u.pi.pkg.Scope() || seen[o] {
+			return true
+		}
+		if o.Pos() >= v.Pos() && o.Pos() < v.End() {
+			return true
+		}
+		seen[o] = true
+		captured = append(captured, o)
+		return true
+	})
+	e.nfolds++
+	name := fmt.Sprintf("%s_body%d", e.name, e.nloops+e.nfolds)
+	var cparams, cargs []string
+	for _, o := range captured {
+		if _, ok := e.arrays[o]; ok {
+			fatal(v.Pos(), "loop reads a local array")
+		}
+		cparams = append(cparams, fmt.Sprintf("(%s : %s)", leanLocal(o.Name()), e.localType(o)))
+		cargs = append(cargs, leanLocal(o.Name()))
+	}
+	val, typ := e.tupleOf(carried)
+	yield := func(ind string) string { return ind + val }
+	body := e.seq(v.Body.List, "  ", yield, v.Body.End())
+	kty := e.localType(kobj)
+	var b strings.Builder
+	fmt.Fprintf(&b, "/-- loop %d of %s: `%s` — ONE iteration, as a function of the loop-carried variables `c'` and of k;\n    the loop is the left fold of this function over k = %d, …, 1, 0 (the body has no break/continue/return and does not assign k). -/\n",
+		e.nloops+e.nfolds, e.name, loopHeader(v), top)
+	fmt.Fprintf(&b, "def %s %s(c' : %s) (%s : %s) : %s :=\n", name, joinSp(cparams), typ, leanLocal(kid.Name), kty, typ)
+	for i, o := range carried {
+		pr := "c'"
+		if len(carried) > 1 {
+			pr = tupleProj("c'", int64(i), int64(len(carried)))
+		}
+		fmt.Fprintf(&b, "  let %s : %s := %s\n", leanLocal(o.Name()), e.localType(o), pr)
+	}
+	b.WriteString(body + "\n\n")
+	e.u.aux = append(e.u.aux, b.String())
+	var ks []string
+	for k := top; k >= 0; k-- {
+		ks = append(ks, fmt.Sprint(k))
+	}
+	call := strings.TrimSpace(e.u.ns + "." + name + " " + strings.Join(cargs, " "))
+	if len(cargs) > 0 {
+		call = "(" + call + ")"
+	}
+	rhs := fmt.Sprintf("%s  ([%s] : List %s).foldl %s %s", ind, strings.Join(ks, ", "), kty, call, val)
+	return e.bindTuple(carried, rhs, ind), true
+}
+
+func joinSp(ps []string) string {
+	if len(ps) == 0 {
+		return ""
+	}
+	return strings.Join(ps, " ") + " "
 }
 
 func paren(t string) string {
@@ -1545,15 +2016,23 @@ func (u *unit) findFunc(key string) *ast.FuncDecl {
 type fnOpt struct {
 	fuel     []string // fuel per loop
 	state    bool
-	intAsInt bool // Go int -> Int in this function
+	intAsInt bool   // Go int -> Int in this function
+	floats   bool   // float64 -> S2.F64, r3.Vector -> S2.V3, stuv.go functions by name (nbr.go)
+	strs     bool   // string -> String, strconv.ParseUint by name (nbr.go)
+	leanName string // Lean name of the definition when the Go name cannot be used (CellID.String)
 }
 
 // fn translates one function.
 func (u *unit) fn(key string, opt fnOpt) {
 	fd := u.findFunc(key)
 	name := fd.Name.Name
+	if opt.leanName != "" {
+		name = opt.leanName
+	}
 	intAsInt = opt.intAsInt
-	defer func() { intAsInt = false }()
+	floatOK = opt.floats
+	strOK = opt.strs
+	defer func() { intAsInt = false; floatOK = false; strOK = false }()
 	e := &env{u: u, fd: fd, name: name, arrays: map[types.Object]int64{}, fuel: opt.fuel, stateFn: opt.state, selfKey: key}
 	var params []string
 	addParams := func(fl *ast.FieldList) {
@@ -1587,6 +2066,7 @@ func (u *unit) fn(key string, opt fnOpt) {
 		res := fo.Type().(*types.Signature).Results()
 		if res.Len() == 1 {
 			ret = u.leanType(fd.Pos(), res.At(0).Type())
+			e.retType = ret
 		} else {
 			ret = u.leanType(fd.Pos(), res)
 		}
@@ -1601,7 +2081,32 @@ func (u *unit) fn(key string, opt fnOpt) {
 	if opt.state {
 		body = e.seq(fd.Body.List, "      ", func(ind string) string { return ind + "t" }, fd.Body.End())
 	} else {
-		body = e.seq(fd.Body.List, "  ", nil, fd.Body.End())
+		// named results are zero-initialised locals; a bare `return` yields their tuple
+		pre := ""
+		bare := false
+		ast.Inspect(fd.Body, func(x ast.Node) bool {
+			if r, ok := x.(*ast.ReturnStmt); ok && len(r.Results) == 0 {
+				bare = true
+			}
+			return true
+		})
+		if sig != nil && bare {
+			for _, f := range sig.List {
+				for _, n := range f.Names {
+					if n.Name == "_" {
+						fatal(n.Pos(), "blank named result")
+					}
+					o := u.pi.info.Defs[n]
+					k := kindOfType(o.Type())
+					if k != kU64 && k != kNat && k != kInt {
+						fatal(n.Pos(), "named result of unsupported type")
+					}
+					e.named = append(e.named, o)
+					pre += fmt.Sprintf("  let %s : %s := 0\n", leanLocal(n.Name), leanKind(k))
+				}
+			}
+		}
+		body = pre + e.seq(fd.Body.List, "  ", nil, fd.Body.End())
 	}
 	if e.nloops != len(opt.fuel) && !opt.state {
 		fatal(fd.Pos(), "%s: %d loops translated but %d fuel bounds given", key, e.nloops, len(opt.fuel))
@@ -1627,6 +2132,7 @@ func (u *unit) fn(key string, opt fnOpt) {
 		fmt.Fprintf(u.out, "def %s %s : %s :=\n%s\n\n", name, strings.Join(params, " "), ret, body)
 	}
 	u.emitted[key] = qual
+	fnIntMode[key] = opt.intAsInt
 	u.facts = append(u.facts, fact{Name: key, Kind: "func", Pos: relpos(fd.Pos()), Lean: "S2.Generated." + qual, Sha256: sha(src(fd))})
 }
 
@@ -2268,6 +2774,8 @@ func main() {
 	files["CellUnionFns.lean"] = genCellUnion(s2, &facts, emitted)
 	files["PredConsts.lean"] = genPred(s2, r3, &facts, emitted)
 	files["CodecConsts.lean"] = genCodec(s2, &facts, emitted)
+	files["CellIDNbrFns.lean"] = genCellIDNbr(s2, &facts, emitted)
+	files["CellIDStrFns.lean"] = genCellIDStr(s2, &facts, emitted)
 	var names []string
 	for n := range files {
 		names = append(names, n)
